@@ -39,3 +39,13 @@ var jsonSeeds = []string{
 func FuzzC03Bytes(f *testing.F) {
 	fuzzBytes(f, "C03", func(b []byte) any { return &C03Case{Text: string(b)} }, jsonSeeds...)
 }
+
+var hostileSeeds = []string{
+	`{"first":{}"second":2}`, `[nu ll,[]2]`, `[1,]`, `{"a"`, `"\`, `["\`, `{"a":tru}`, `[1x]`, "[\xff]", "{\"a\":\"\xc3\"}", `[[[[[[[[[[[[[[[[[[[[`,
+	`{"a":1}}`, `[]]`, `{{}`, `{"a" 1}`, `{"a":}`, `{,}`, `[,]`, `{"a":1,}`, `["a" "b"]`, `{"a":[}`, `[{]`, "\n\n[\n1,\n\n}", `x[1]`, `[1]x`, `{"\ud800":1}`,
+}
+
+func FuzzC04Bytes(f *testing.F) {
+	fuzzBytes(f, "C04", func(b []byte) any { return &C04Case{Mode: "bytes", Bytes: append(RawBytes{}, b...)} }, append(append([]string{}, jsonSeeds...), hostileSeeds...)...)
+}
+func FuzzC20(f *testing.F) { fuzzProp(f, "C20") }
